@@ -8,5 +8,6 @@ try:
     import replaydef as _conv
     DRIVERS['conv'] = _conv.run_conv
     DRIVERS['resolver'] = _conv.run_resolver
+    DRIVERS['table'] = _conv.run_table
 except ImportError:
     pass
